@@ -416,7 +416,7 @@ def et_runtime(ex, state):
     g = ghost(ex)
     # the refusal set of C15 ranges over the optional blocks; running data and the basic meter block are mandatory
     g.never_refused = {command_key(inv._READ_RUNNING_DATA), command_key(inv._READ_METER_DATA)}
-    ex.inputs = {"state": str(st)}
+    ex.inputs = {"family": "ET", "state_index": state, "script": g.script, "state": str(st)}
     raised_first = False
     for call in (1, 2):
         try:
@@ -486,7 +486,7 @@ def dt_runtime(ex, state):
     ex.setattr(inv, "_sensors", dt_filters()[(sp, pv2)])
     ex.setattr(inv, "_has_meter", meter)
     ghost(ex).never_refused = {command_key(inv._READ_RUNNING_DATA)}
-    ex.inputs = {"state": str(combos[state])}
+    ex.inputs = {"family": "DT", "state_index": state, "script": ghost(ex).script, "state": str(combos[state])}
     raised_first = False
     for call in (1, 2):
         try:
@@ -1150,3 +1150,101 @@ def limit_roundtrip(ex, family, which):
         ex.check("C19_limit_setter_getter_succeed", unsupported, detail=repr(pr.exc)[:200])
         return
     ex.check("C19_getter_returns_value_that_was_set", ex.compare(ast.Eq(), got, x), detail=f"{got}")
+
+
+# ---- C16 at the API level: read_sensor(id) == read_runtime_data()[id] against the same register file -----------------------
+def c16_ids(family):
+    inv = {"ET": None, "DT": None}
+    from goodwe.et import ET
+    from goodwe.dt import DT
+    if family == "ET":
+        rows = (ET._ET__all_sensors + ET._ET__all_sensors_meter + ET._ET__all_sensors_battery
+                + ET._ET__all_sensors_battery2 + ET._ET__all_sensors_mppt)
+    else:
+        rows = DT._DT__all_sensors + DT._DT__all_sensors_meter
+    out = []
+    for r in rows:
+        if r.id_ not in out:
+            out.append(r.id_)
+    return out
+
+
+def single_vs_bulk(ex, family, chunk, nchunks):
+    """with every capability present: for each listed id, read_sensor(id) returns what read_runtime_data() reports for
+    it on unchanged registers (or raises ValueError where the bulk read reports None)"""
+    install_hooks()
+    ex.contracts = {k: v for k, v in ex.contracts.items() if not k.endswith(".read")}
+    ids_all = c16_ids(family)
+    mine = ids_all[chunk::nchunks]
+    sid = mine[ex.choose(len(mine), tag="id")]
+    inv = new_inverter(ex, family)
+    ex.new_object(inv)
+    ex.new_object(inv._settings)
+    ex.setattr(inv, "serial_number", ex.fresh_str("serial"))
+    if family == "ET":
+        ex.setattr(inv, "_has_battery2", True)
+        ex.setattr(inv, "_has_mppt", True)
+        ex.setattr(inv, "_has_meter_extended", True)
+        ex.setattr(inv, "_has_meter_extended2", True)
+    g = ghost(ex)
+    g.consistent_refusal = False
+    g.regs = RegFile(ex)
+    g.focus_ids = (sid,)
+    cls = [type(r).__name__ for r in (ex.call(inv.sensors, [], {})) if r.id_ == sid][-1]
+    ex.unit = f"api:{family}/{sid}[{cls}]"
+    ex.inputs = {"family": family, "id": sid}
+    try:
+        data = run_coro(ex, inv.read_runtime_data)
+    except PyRaise as pr:
+        ex.check("C16_bulk_read_succeeds_on_a_cooperative_inverter", False, detail=repr(pr.exc)[:150])
+        return
+    listed = [s.id_ for s in ex.call(inv.sensors, [], {})]
+    if sid not in listed:
+        return          # e.g. battery ids when the battery mode word reads 0: not offered, nothing to compare
+    bulk = data.get(sid)
+    try:
+        single = run_coro(ex, inv.read_sensor, sid)
+    except PyRaise as pr:
+        e = pr.exc
+        if isinstance(e, NotImplementedError):
+            ex.check("C16_read_value_is_implemented", False, detail=f"{cls}.read_value raises NotImplementedError")
+            return
+        ex.check("C16_single_read_of_a_listed_id_fails_only_where_bulk_reports_None",
+                 isinstance(e, ValueError) and bulk is None and "nknown" not in str(getattr(e, "args", [""])[0]),
+                 detail=f"{type(e).__name__}: {e}"[:160])
+        return
+    from .sensor_harness import values_equal
+    ex.check("C16_single_read_equals_bulk_read", values_equal(ex, single, bulk), detail=f"{single} vs {bulk}"[:200])
+
+
+def sensor_cache_history(ex, family):
+    """C16 'also after the set of available sensors has changed between calls': a single read, then a bulk read that
+    changes the capabilities, then every listed id must still be known to read_sensor"""
+    install_hooks()
+    inv = new_inverter(ex, family)
+    ex.new_object(inv)
+    ex.new_object(inv._settings)
+    ex.setattr(inv, "serial_number", ex.fresh_str("serial"))
+    g = ghost(ex)
+    g.consistent_refusal = True
+    ex.unit = f"cache:{family}"
+    ex.inputs = {"family": family}
+    if family == "ET":
+        ex.setattr(inv, "_has_battery", bool(ex.choose(2, tag="battery.before")))
+        ex.setattr(inv, "_has_mppt", bool(ex.choose(2, tag="mppt.before")))
+    else:
+        ex.setattr(inv, "_has_meter", bool(ex.choose(2, tag="meter.before")))
+    g.never_refused = {command_key(inv._READ_RUNNING_DATA)} | ({command_key(inv._READ_METER_DATA)} if family == "ET" else set())
+    first = ex.call(inv.sensors, [], {})[1].id_
+    try:
+        run_coro(ex, inv.read_sensor, first)       # builds whatever lookup structure the class keeps
+    except PyRaise:
+        return
+    try:
+        run_coro(ex, inv.read_runtime_data)
+    except PyRaise:
+        return
+    listed = ex.call(inv.sensors, [], {})
+    missing = [s.id_ for s in listed if ex.call(inv._get_sensor, [s.id_], {}) is None]
+    ex.check("C16_every_listed_id_is_known_to_read_sensor_after_capability_change", not missing,
+             detail=f"unknown to read_sensor: {missing[:6]}")
